@@ -556,6 +556,20 @@ def judge_copy(rec, pair, src, side_name, new, rx, tx, where, expected):
         except Exception as exc:  # noqa: BLE001
             got = f"<raises {type(exc).__name__}>"
         rec.check("C20.copy-link", got == val, op=op, cls=cls, attr="param:" + name, detail=f"{name} is {short(val)} on the source but {short(got)} on the copy")
+    if expected.get("timing_mark") is not None and hasattr(type(new), "timing_mark"):
+        # the copies are a pair of their own: a parameter edited through the copy stays what it was on the originals
+        before = (canon(rx.metadata), canon(tx.metadata))
+        try:
+            keep = new.timing_mark
+            new.timing_mark = 0.4321
+            after = (canon(rx.metadata), canon(tx.metadata))
+            rec.check("C20.copy-link", before == after, op=op, cls=cls, attr="edit-of-copy-reaches-originals", detail=f"timing_mark set on the copy changed the originals' metadata: {short(before[0], 200)} -> {short(after[0], 200)}")
+            new.timing_mark = keep
+            rec.see("copies-edited-next-to-originals")
+        except Exception as exc:  # noqa: BLE001
+            if not exc_origin(exc)[0]:
+                raise
+            rec.see("copy-edit-refused:" + type(exc).__name__)
     if pair[3] == "large":
         try:
             ids_rx = set(np.unique(n_rx.tx_id_property.values).tolist())
